@@ -269,6 +269,13 @@ func (req *SrvReq) Process() {
 			req.RespondError(Eunknownfid)
 			return
 		}
+	} else {
+		switch tc.Type {
+		case Twalk, Topen, Tcreate, Tread, Twrite, Tclunk, Tremove, Tstat, Twstat:
+			/* NOFID never names a fid, and these handlers expect req.Fid to be set */
+			req.RespondError(Eunknownfid)
+			return
+		}
 	}
 
 	switch req.Tc.Type {
